@@ -48,6 +48,8 @@ pub struct Tr<'a> {
     pub loop_depth: usize,
     pub value_depth: usize,
     pub pre: Vec<Bind>,
+    /// variable -> the variable it mutably borrows (`let t = x.as_mut()`)
+    pub alias: HashMap<String, String>,
 }
 
 const RESERVED: &[&str] = &[
@@ -82,7 +84,7 @@ pub fn tuple_pat(vars: &[String]) -> String {
 
 pub fn translate_fn(table: &Table, f: &FnInfo) -> R<String> {
     let world = table.world.contains(&f.key());
-    let mut tr = Tr { table, f, scopes: vec![HashMap::new()], fresh: 0, world, extras: vec![], loop_depth: 0, value_depth: 0, pre: vec![] };
+    let mut tr = Tr { table, f, scopes: vec![HashMap::new()], fresh: 0, world, extras: vec![], loop_depth: 0, value_depth: 0, pre: vec![], alias: HashMap::new() };
     let mut binders = String::new();
     for (n, t) in f.params() {
         let c = t.coq().ok_or_else(|| format!("parameter `{}` has a type outside the translated fragment", n))?;
@@ -381,6 +383,13 @@ impl<'a> Tr<'a> {
                 syn::Expr::Match(m) => return self.match_stmt(m, rest, tail, false, Some((pat, ann))),
                 syn::Expr::If(i) => return self.if_stmt(i, rest, tail, false, Some((pat, ann))),
                 _ => return Err("`return` inside a let initialiser".into()),
+            }
+        }
+        if let (syn::Expr::MethodCall(mc), syn::Pat::Ident(pi)) = (e, pat) {
+            if mc.method == "as_mut" {
+                if let Some(target) = base_var(&mc.receiver) {
+                    self.alias.insert(pi.ident.to_string(), target);
+                }
             }
         }
         let (v, ty) = self.expr(e)?;
